@@ -490,6 +490,34 @@ theorem header_word (K : Content) (padded : Bool) (h : HeaderOk K padded) :
       simp [padOf, padding, h]
     · exact absurd h id
 
+open Mila.Spec.Arc (FileOk HeaderOk HeaderFits padding) in
+/-- From `HeaderFits`: the first word `w` exists, and the padding the code derives from it is the
+padding of *some* header flag under which every record still describes its file (when no file
+has a body the flag is immaterial). -/
+theorem header_fits_word (K : Content) (files : List (Str × Bytes)) (padded : Bool) (ia : Nat)
+    (h : HeaderFits K files padded)
+    (hfiles : ∀ i, (hi : i < files.length) → FileOk K padded ia i files[i]) :
+    ∃ w padded', u32le K.data 0 = some w ∧ padOf w = padding padded' ∧
+      ∀ i, (hi : i < files.length) → FileOk K padded' ia i files[i] := by
+  rcases h with h | ⟨hw, hempty⟩
+  · obtain ⟨w, hw, hp⟩ := header_word K padded h
+    exact ⟨w, padded, hw, hp, hfiles⟩
+  · cases hw0 : u32le K.data 0 with
+    | none => rw [hw0] at hw; exact absurd hw (by simp)
+    | some w =>
+      refine ⟨w, decide (w = 0), rfl, ?_, ?_⟩
+      · by_cases hz : w = 0 <;> simp [padOf, padding, hz]
+      · intro i hi
+        have hf := hfiles i hi
+        have he : files[i].2 = [] := hempty _ (List.getElem_mem hi)
+        unfold FileOk at hf ⊢
+        cases hu : u32le K.data (ia + 16 * i + 12) with
+        | none => rw [hu] at hf; exact hf.elim
+        | some off =>
+          rw [hu] at hf
+          simp only at hf ⊢
+          exact ⟨hf.1, by simp [BodyAt, he]⟩
+
 /-! ### totality -/
 
 theorem readU32_total (a : BinArchive) (addr : Nat) : a.readU32 addr ≠ .panic := by
